@@ -27,7 +27,7 @@ as `~`, empty lists / tables as `_`.
 
 `g<op>` = the same operation through the definitions REGENERATED from the source (`Generated.Domains`, `Generated.GettextHdr`,
 `Generated.HdrChk`; proved equal to the model in `Props/C15Tie.lean`): `gparse`, `gemail` (→ `ok <special> <dotless>` | `err <exc>`),
-`gcomments`, `gmime` (`err crash` for any exception), `gproject`, `gtranslator`; an exception is `err <name>`.
+`gcomments`, `gheaders`, `gmime` (`err crash` for any exception), `gproject`, `gtranslator`; an exception is `err <name>`.
 -/
 namespace I18n.Driver.Hdr
 open I18n I18n.Hdr I18n.Generated
@@ -187,6 +187,10 @@ def handle (op : String) (args : List String) : String :=
     match Generated.HdrChk.check_comments (ext [] [] [] [] []) (t == "1") (S text) [] with
     | .error e => "err " ++ e.name
     | .ok ts => "ok " ++ showTags ts
+  | "gheaders", [t, es, fuzzy, fieldT] =>
+    match Generated.HdrChk.check_headers (ext [] [] [] (tableOf fieldT) ((listOf "," fuzzy).map S)) (entriesOf es) (t == "1") [] with
+    | .error _ => "err crash"
+    | .ok (ts, _, m) => s!"ok {showTags ts} meta={showMeta m}"
   | "gmime", [t, ls, chars, encs] =>
     let w := charsetEnv chars encs
     match Generated.HdrChk.check_mime (ext [] [] [] [] []) w.1 (metaOf ls) (t == "1") w.2 [] with
